@@ -833,6 +833,15 @@ func runHistory(h []Op, withOracle bool) (trace [][]string, or *oracle, classes 
 			classes = append(classes, "panic:"+op.K)
 			return
 		}
+		if withOracle {
+			for _, n := range uAddr {
+				if !e.st.VerifC09StorageCached(addrOf(n)) {
+					or.hit("a slot with a dirty or pending value has no cached committed value (originStorage): the model's merge of originStorage and the storage trie is not sound any more", fmt.Sprintf("account %d after call %d", n, i), h, i)
+					classes = append(classes, "storage_cache_assumption_BROKEN")
+					break
+				}
+			}
+		}
 		rec := []string{fmt.Sprint(ret)}
 		func() {
 			defer func() {
@@ -1118,6 +1127,99 @@ func (g *gen) frame(depth int, valShare int, findings bool) {
 	}
 }
 
+// storageBlock: a few contracts, some with storage committed by a previous block, one created in
+// the block; then ONE block of transactions that only Finalise in between (no IntermediateRoot /
+// Commit), each writing a few slots inside nested frames.  Values come from a tiny pool per slot
+// that always holds the slot's committed value, zero and everything written to it earlier in the
+// block, so that "write the committed value back in a later transaction, snapshot, write, revert"
+// (dirty over pending over origin) happens often.
+func (g *gen) storageBlock() {
+	r := g.r
+	type slot struct{ a, k uint64 }
+	old := []uint64{1, 2}
+	slots := []slot{}
+	pool := map[slot][]string{}
+	for _, a := range old {
+		g.emit(Op{K: "setnonce", A: a, B: 1})
+		for _, k := range uKey[:2] {
+			sl := slot{a, k}
+			slots = append(slots, sl)
+			v := "0"
+			if r.Chance(60) {
+				v = fmt.Sprint(1 + r.Intn(3))
+				g.emit(Op{K: "setstate", A: a, B: k, V: v})
+			}
+			pool[sl] = []string{v, "0"}
+		}
+	}
+	g.emit(Op{K: "reopen", Del: true}) // the previous block is committed
+	fresh := uint64(4)
+	for _, k := range uKey[:2] {
+		sl := slot{fresh, k}
+		slots = append(slots, sl)
+		pool[sl] = []string{"0", "0"}
+	}
+	store := func() {
+		sl := slots[r.Intn(len(slots))]
+		p := pool[sl]
+		var v string
+		switch {
+		case r.Chance(35):
+			v = p[0] // the value the block started with
+		case r.Chance(75):
+			v = p[r.Intn(len(p))]
+		default:
+			v = fmt.Sprint(1 + r.Intn(3))
+		}
+		pool[sl] = append(pool[sl], v)
+		g.emit(Op{K: "setstate", A: sl.a, B: sl.k, V: v})
+	}
+	var frame func(depth int)
+	frame = func(depth int) {
+		if g.dead {
+			return
+		}
+		g.emit(Op{K: "snapshot"})
+		my := int64(-1)
+		if len(g.stack) > 0 {
+			my = g.stack[len(g.stack)-1]
+		}
+		n := 1 + r.Intn(3)
+		for i := 0; i < n; i++ {
+			if depth < 3 && r.Chance(25) {
+				frame(depth + 1)
+			} else {
+				store()
+			}
+		}
+		if r.Chance(60) && my >= 0 {
+			g.emit(Op{K: "revert", A: uint64(my)})
+		}
+	}
+	txs := 2 + r.Intn(5)
+	for t := 0; t < txs && !g.dead; t++ {
+		g.emit(Op{K: "prepare", A: uTh[r.Intn(3)], B: uint64(t)})
+		g.emit(Op{K: "snapshot"})
+		outer := int64(-1)
+		if len(g.stack) > 0 {
+			outer = g.stack[len(g.stack)-1]
+		}
+		if t == 0 {
+			g.emit(Op{K: "setnonce", A: fresh, B: 1}) // a contract created in this block
+		}
+		for i, n := 0, 1+r.Intn(3); i < n; i++ {
+			store()
+		}
+		for i, n := 0, 1+r.Intn(2); i < n; i++ {
+			frame(1)
+		}
+		if r.Chance(10) && outer >= 0 {
+			g.emit(Op{K: "revert", A: uint64(outer)})
+		}
+		g.emit(Op{K: "finalise", Del: true})
+	}
+}
+
 func genHistory(r *vf.Rng, style int, dlg bool) []Op {
 	g := &gen{r: r, e: newEnv(), dlg: dlg}
 	findings := r.Chance(12)
@@ -1162,6 +1264,8 @@ func genHistory(r *vf.Rng, style int, dlg bool) []Op {
 				g.emit(Op{K: "finalise", Del: r.Chance(85)})
 			}
 		}
+	case 2:
+		g.storageBlock()
 	default: // op soup
 		n := 4 + r.Heavy(120)
 		for i := 0; i < n && !g.dead; i++ {
@@ -1546,13 +1650,18 @@ func doGen(seed uint64, n int, outDir, corpusDir, tier string) {
 		before := count
 		exhaustive(smallAlphabet, 4, func(ops []Op) { add(History{Ops: ops, Comment: "exhaustive"}) })
 		exhaustive([]string{"store1", "snap", "revin", "revout", "fin", "val"}, 5, func(ops []Op) { add(History{Ops: ops, Comment: "exhaustive"}) })
+		// storage layers: dirty over pending (earlier transactions) over origin
+		exhaustive([]string{"store1", "store0", "snap", "revin", "fin"}, 6, func(ops []Op) { add(History{Ops: ops, Comment: "exhaustive"}) })
 		res.Extra["exhaustive_small_scope_histories"] = count - before
 		n += count - before
 	}
 	for count < n {
 		style := 0
-		if r.Chance(40) {
+		switch x := r.Intn(100); {
+		case x < 30:
 			style = 1
+		case x < 55:
+			style = 2
 		}
 		add(History{Ops: genHistory(r, style, false)})
 	}
